@@ -95,6 +95,18 @@ def poisoned_cases(tier):
     # (the options the representatives do not use)
     msgs.append(('ipv6-unicast/linklocal', {'attr': {1: 0, 2: [(2, [65001])], 14: {'afi_safi': (2, 1), 'nexthop': '2001:db8::1', 'linklocal_nexthop': 'fe80::1',
                                                                                'nlri': ['2001:db8:1::/48']}}}))
+    # the other messages the agent builds from values: OPEN (fixed fields and capabilities), NOTIFICATION, ROUTE-REFRESH
+    caps = {'afi_safi': [(1, 1), (2, 1), (1, 128)], 'four_bytes_as': True, 'route_refresh': True, 'cisco_route_refresh': True, 'enhanced_route_refresh': True,
+            'add_path': 'ipv4_both', 'ext_nexthop': [{'afi_safi': [1, 1], 'nexthop_afi': 2}], 'graceful_restart': False}
+    others = [('open', (4, 65001, 180, '10.0.0.1', caps)), ('open', (4, 4200000000, 0, '10.0.0.1', caps)), ('notification', (6, 2, b'\x01\x02')),
+              ('route_refresh', (1, 1, 0, 5)), ('route_refresh', (2, 128, 1, 128))]
+    for kind, payload in others:
+        for path, leaf in _leaves(list(payload)):
+            vals = POISON_STR if isinstance(leaf, str) else POISON_INT if isinstance(leaf, int) and not isinstance(leaf, bool) else ('bogus', None, 7)
+            for v in vals:
+                if v == leaf:
+                    continue
+                yield kind, ('poisoned=' + '/'.join(str(x) for x in path), type(v).__name__, repr(v)[:24]), kind, tuple(_with(list(payload), path, v))
     for fam, msg in msgs:
         for path, leaf in _leaves(msg):
             vals = POISON_STR if isinstance(leaf, str) else POISON_INT if isinstance(leaf, int) and not isinstance(leaf, bool) else ('bogus', None)
